@@ -68,8 +68,9 @@ Record config := mkCfg {
   g_proc : client -> nat;                                       (* which process a client lives in *)
   g_exports : client -> Dispatch.exports;                       (* DBusObjectHandler.exports of each client *)
   g_beh : client -> Dispatch.invocation -> Dispatch.outcome;    (* user code *)
-  g_unmodelled : Dispatch.call -> str * bytes                   (* name and text of the error replies whose name /
+  g_unmodelled : Dispatch.call -> str * bytes;                  (* name and text of the error replies whose name /
                                                                    text Model/Dispatch.v leaves open *)
+  g_limit : N                                                   (* DBusMessage._maxMsgLen (2**27) *)
 }.
 
 (* ------------------------------------------------------------------------ *)
@@ -284,6 +285,25 @@ Definition call_msg (q : creq) (serial : N) (body : bytes) : BusRoute.bmsg :=
      (Model/BusRoute.v); this model sends neither, and carries None there, for calls as for
      replies ([view_args] above is what it would be) *)
 
+(* DBusMessage._marshal, after the header has been packed:
+     "if len(self.rawMessage) > self._maxMsgLen: raise MarshallingError(...)"
+   - header, padding to 8 and body together.  (Model/Message.v's marshal_header refuses
+   above 2**27 by itself; [limit] is _maxMsgLen where it is at most that.) *)
+Definition hdr_attrs (m : BusRoute.bmsg) : list (Message.attr * pyval) :=
+  [(Message.APath, ostr (BusRoute.g_path m)); (Message.AInterface, ostr (BusRoute.g_interface m));
+   (Message.AMember, ostr (BusRoute.g_member m)); (Message.AErrorName, ostr (BusRoute.g_error_name m));
+   (Message.AReplySerial, match BusRoute.g_reply_serial m with Some n => PWrap 117 (PInt (Z.of_N n)) | None => PNone end);
+   (Message.ADestination, ostr (BusRoute.g_destination m)); (Message.ASender, ostr (BusRoute.g_sender m));
+   (Message.ASignature, ostr (BusRoute.g_signature m))].
+
+Definition too_big (limit : N) (fuel : nat) (m : BusRoute.bmsg) : bool :=
+  match Message.marshal_header fuel (BusRoute.g_type m)
+                               (negb (N.testbit (BusRoute.g_flags m) 0)) (negb (N.testbit (BusRoute.g_flags m) 1))
+                               (hdr_attrs m) (BusRoute.g_body m) (Z.of_N (BusRoute.g_serial m)) None with
+  | Ok (h, p, b, _) => limit <? len h + len p + len b
+  | Err _ => true
+  end.
+
 Definition with_serial (st : Calls.state) (n : N) : Calls.state :=
   Calls.State n (Calls.st_next_id st) (Calls.st_pending st) (Calls.st_timers st) (Calls.st_done st)
               (Calls.st_fault st).
@@ -300,8 +320,10 @@ Definition conn_call (g : config) (s : sys) (c : client) (q : creq) (k : cont) :
   match Message.validate_args false 1 attrs, encode_body (g_fuel g) (q_sig q) (PTuple (q_args q)) (Some []) with
   | Ok _, Ok body =>
       let serial := p_serial p in
-      if negb (header_ok q) then
-        (* the serial is taken, then packing the header raises: defer.fail() *)
+      if negb (header_ok q) ||
+         (negb (Calls.max_serial <? serial) && too_big (g_limit g) (g_fuel g) (call_msg q serial body)) then
+        (* the serial is taken, then packing the header raises, or what was packed exceeds
+           _maxMsgLen (the constructor marshals: nothing is registered, nothing is sent): defer.fail() *)
         let s1 := set_procs s (updn (s_procs s) (g_proc g c) (set_serial p (serial + 1))) in
         let st1 := Calls.call_remote (with_serial st (serial + 1)) Calls.CkInvalid (q_timeout q) (q_rs q) in
         finish g (set_calls s1 c st1) c id CFailed None
